@@ -223,8 +223,11 @@ def cmp_table(rep, F, rule='ORDER-TABLE'):
         mcmp = re.match(r'^compare_scaled_biguints\(arg([12])\.digits,arg([12])\.digits,downcast\(checked_diff\(arg1\.scale,arg2\.scale\)\.1\)\.0\)$', base)
         if mcmp:
             a, b = mcmp.group(1), mcmp.group(2)
+            if fits is None:
+                rep.undecided(rule, key, 'whether the scale difference fits u64 is not visible on this path', fn.where())
+                continue
             if fits is not True:
-                rep.violation(rule, key, 'digit comparison used although the scale difference is not known to fit: %s' % o[:80], fn.where())
+                rep.violation(rule, key, 'digit comparison used although the scale difference does not fit u64 on this path: %s' % o[:80], fn.where())
                 continue
             if (a, b) == ('1', '2') and scale_ord in ('Greater', 'Equal'):
                 rel = 0
@@ -235,6 +238,9 @@ def cmp_table(rep, F, rule='ORDER-TABLE'):
                               % ({'Less': '<', 'Equal': '=', 'Greater': '>'}.get(scale_ord, '?'), 'other, self' if scale_ord == 'Less' else 'self, other', a, b), fn.where())
                 continue
         elif base == 'checked_diff(arg1.scale,arg2.scale).0':
+            if fits is None:
+                rep.undecided(rule, key, 'whether the scale difference fits u64 is not visible on this path', fn.where())
+                continue
             if fits is not False:
                 rep.violation(rule, key, 'the scale ordering alone decides although the difference fits (digits ignored): %s' % o[:80], fn.where())
                 continue
